@@ -3,7 +3,7 @@
 (* on the TLC-generated shapes are replayed against WmoLayout.                                     *)
 (*   P-conjuncts (reject = "BAD"):  Write accepted => both parsers accept the bytes; every section *)
 (*     token after parse equals the token of the object written (Sec); the second write is         *)
-(*     byte-identical (Rewrite); MOHD counts = list lengths = record counts of the chunks (Count); *)
+(*     byte-identical, as a whole (Rewrite) and chunk by chunk (RwChunk); MOHD counts = list lengths = record counts of the chunks (Count); *)
 (*     offsets stored in MOMT / MOGI resolve, in MOTX / MOGN, to the strings of the object          *)
 (*     (StrRef); conversion keeps every section owed by ConvRootOwed / ConvGroupOwed (Sec/convert). *)
 (*   D-conjuncts ("DRIFT", never a verdict): the chunk list read by the independent walker tiles    *)
@@ -92,6 +92,7 @@ Why(e, st) ==
       [] e.ev = "Sec"     -> SecWhy(e, st)
       [] e.ev = "Rewrite" -> IF ~IsOk(e.res) THEN "rewrite_failed"
                              ELSE IF e.len # st.wlen \/ e.tok # st.wtok THEN "second_write_differs" ELSE ""
+      [] e.ev = "RwChunk" -> IF e.a # e.b THEN "chunk_differs_on_second_write" ELSE ""
       [] e.ev = "Convert" -> IF IsOk(e.res) THEN "" ELSE "convert_failed"
       [] e.ev = "End"     -> EndWhy(st)
       [] OTHER            -> Assert(FALSE, <<"unknown event", e>>)
@@ -126,6 +127,7 @@ PhaseOk(e, st) ==
       [] e.ev = "Parse"   -> st.ph \in {"written", "parsed", "rewritten"}
       [] e.ev = "Sec"     -> st.ph \in {"written", "parsed", "rewritten", "converted"}
       [] e.ev = "Rewrite" -> st.ph = "parsed"
+      [] e.ev = "RwChunk" -> st.ph = "rewritten"
       [] e.ev = "Convert" -> st.ph = "reset"
       [] e.ev = "End"     -> st.ph # "idle"
       [] OTHER            -> FALSE
